@@ -15,6 +15,8 @@ pub enum Trigger {
     SimultaneousStart,
     /// a settled cluster of n-1 nodes, then the last node starts and joins
     LateJoin,
+    /// as LateJoin, the joining node being older than every node of the cluster (the primary role has to move)
+    LateJoinOfOlderNode,
     /// a settled cluster of n-1 nodes; the last node was started on its own (it won its one-member
     /// election and is a primary too); then an administrator tells the cluster's primary `join <it>`
     LoneNodeJoinedLater,
@@ -96,7 +98,7 @@ pub fn build(c: &Config) -> Result<NetWorld, String> {
             w.pump();
             Ok(w)
         }
-        Trigger::LateJoin => {
+        Trigger::LateJoin | Trigger::LateJoinOfOlderNode => {
             let mut w = settled_with_pids_partial(c.nodes, &c.pids)?;
             w.join_cluster(c.nodes - 1)?;
             Ok(w)
@@ -232,6 +234,9 @@ pub fn configs(quick: bool) -> Vec<Config> {
     // can have either node older
     let mut v = vec![];
     v.push(Config { nodes: 2, pids: vec![100, 200], trigger: Trigger::LateJoin });
+    // the joiner is OLDER than the settled cluster's primary: the primary role has to move to it
+    v.push(Config { nodes: 2, pids: vec![200, 100], trigger: Trigger::LateJoinOfOlderNode });
+    v.push(Config { nodes: 3, pids: vec![200, 300, 100], trigger: Trigger::LateJoinOfOlderNode });
     v.push(Config { nodes: 2, pids: vec![100, 200], trigger: Trigger::SimultaneousStart });
     v.push(Config { nodes: 2, pids: vec![200, 100], trigger: Trigger::SimultaneousStart });
     v.push(Config { nodes: 2, pids: vec![100, 200], trigger: Trigger::LoneNodeJoinedLater });
